@@ -1,9 +1,18 @@
 //! mc-sbor: serves C16 C20 C21 (one module per property).
 use mc_core::Ctx;
 
+mod alloc_guard;
 mod c16;
 mod c20;
 mod c21;
+mod flavour;
+mod refsbor;
+mod sink;
+mod spaces;
+
+/// Counting allocator (pass-through outside a guard scope); used by C21's over-allocation clause.
+#[global_allocator]
+static GLOBAL: alloc_guard::Counting = alloc_guard::Counting;
 
 fn main() {
     let ctx = Ctx::from_args();
